@@ -294,4 +294,5 @@ def _post(chk, cases, bad, extra):
 def main(tier, replay=None):  # noqa: F811
     if replay:
         return inst_check.replay("C01", replay, 2)
-    return inst_check.run("C01", tier, 2, GENS, 400, 6000, ASSUMPTIONS, post=_post)
+    return inst_check.run("C01", tier, 2, GENS, 400, 6000, ASSUMPTIONS, post=_post,
+                          aimed=lambda rng, t: ig.element_cases(rng, 300 if t == "quick" else 5000, inplace_values=(False,)))
